@@ -488,6 +488,16 @@ func doC11(ctx context.Context, w *out.Writer, r *rand.Rand, c *sdump.Config, ro
 	if c.Cfg != "static" {
 		depths = []int{depth, depth, depth} // the dump carries quiescence subtrees at its own depth only
 	}
+	// sometimes searches that were HALTED midway have used the table before (what they stored is part of
+	// the writes judged with the next search, and must not disturb it)
+	if r.Intn(2) == 0 {
+		dry := sdump.NewCountCtx(0)
+		_, _, _, _ = c.Search.Search(dry, &search.Context{TT: search.NoTranspositionTable{}}, root.b.Fork(), depth)
+		for k := 0; k < 3 && dry.Polls > 1; k++ {
+			cc := sdump.NewCountCtx(1 + r.Intn(dry.Polls))
+			_, _, _, _ = c.Search.Search(cc, &search.Context{TT: tt}, root.b.Fork(), depth)
+		}
+	}
 	for _, x := range depths {
 		b := root.b.Fork()
 		rec0 := sdump.Rec(b)
